@@ -410,8 +410,12 @@ class EscapeOfHEProducts(ExactSolver):
              on the line
         '''
 
-        corner0 = corners[0]
-        corner1 = corners[1]
+        # Distances in the x-t plane are measured in units of (xmax, tmax), so
+        # that the test does not depend on the units chosen for x and t.
+        sx, st = self.xmax, self.tmax
+        corner0 = (corners[0][0] / sx, corners[0][1] / st)
+        corner1 = (corners[1][0] / sx, corners[1][1] / st)
+        point = (point[0] / sx, point[1] / st)
 
         dist01 = math.hypot(corner0[0] - corner1[0], corner0[1] - corner1[1])
         distp0 = math.hypot(corner0[0] - point[0], corner0[1] - point[1])
